@@ -20,6 +20,9 @@ CHECKS = {
     'R4': ['C15', 'C04', 'C03', 'C01'],
     'R5': ['C20', 'C16', 'C13'],
     'R6': ['C18', 'C17', 'C10', 'C08', 'C05', 'C11'],
+    'R7': ['C01', 'C03', 'C12', 'C13', 'C04', 'C15', 'C02'],
+    'R8': ['C11', 'C19', 'C14', 'C06', 'C01'],
+    'R9': ['C07', 'C09', 'C17', 'C10', 'C02', 'C08', 'C06'],
 }
 
 
